@@ -459,6 +459,10 @@ func judgeResult(c phaseCase, input string, ref string, r result, o *pbt.Outcome
 	if r.Pos != where || okStrand != strand && strands[okStrand][r.Pos:] != strands[strand][where:] {
 		return fmt.Errorf("%s contains the reference ORF verbatim once, at offset %d (strand %d), but is trimmed at %d (strand %d)", r.Name, where, strand, r.Pos, okStrand)
 	}
+	// trimmed exactly at the ORF's first base: the codon sequence in frame with it starts there too
+	if d != 0 {
+		return fmt.Errorf("%s contains the reference ORF verbatim once and is trimmed at its start, but the codon sequence starts %d base(s) later: not in frame with the ORF", r.Name, d)
+	}
 	return nil
 }
 
@@ -475,6 +479,14 @@ func checkPhase(test string) func(c phaseCase) (pbt.Outcome, error) {
 		if len(c.Orfs) == 0 {
 			if m, _ := naiveLongest(plain, c.Reverse); m == 0 {
 				noORF = true
+			}
+		}
+		if len(c.Orfs) == 0 {
+			// the reference Phase will look for: settle "is there one" first, so that a wrong
+			// answer is reported as such and not as a stream that is never closed
+			_, e := gen.BuildBag(gen.Ali{Rows: c.Seqs, Alphabet: "nt"}).LongestORF(c.Reverse)
+			if (e != nil) != noORF {
+				return o, fmt.Errorf("SeqBag.LongestORF(reverse=%v) reports %v; the naive scan of every ATG says an ORF exists: %v", c.Reverse, e, !noORF)
 			}
 		}
 		var baseline []string
